@@ -309,6 +309,127 @@ def extract_dataToBool(repo):
     return ctext, (first, last)
 
 
+SIG_GET = r'\bData\s+PromelaDataModel::getVariable\s*\(\s*void\s*\*\s*ast\s*\)\s*'
+SIG_SET = r'\bvoid\s+PromelaDataModel::setVariable\s*\(\s*void\s*\*\s*ast\s*,\s*const\s+Data\s*&\s*value\s*\)\s*'
+SIZE_RX = r'strTo\s*<\s*int\s*>\s*\(\s*_variables\s*\[\s*name->value\s*\]\s*\[\s*"size"\s*\]\s*\.atom\s*\)'
+
+
+def extract_index_guard(repo, sig, fname):
+    """The PML_VAR_ARRAY arm of getVariable / setVariable, sliced to the integer guards on the array index:
+         int index = dataToInt(evaluateExpr(expr));      -> the parameter `index` (any int)
+         if (<condition over index and the declared size>) ERROR_EXECUTION_THROW(..)   -> kept, size = strTo<int>(..["size"].atom)
+         <statement that subscripts ...[index]>          -> USE_INDEX(index), which asserts 0 <= index < size
+       Dropped (listed): the guards that do not mention the index (undeclared variable, not an array, the `config`
+       pseudo-array), and the Data map accesses themselves.  Everything between the definition of `index` and its
+       use as a subscript must be one of these shapes, otherwise ExtractionError."""
+    path = os.path.join(repo, SRC)
+    first, last, sigtext, body = rules.find_function(path, sig)
+    m = re.search(r'\bcase\s+PML_VAR_ARRAY\s*:\s*\{', body)
+    if not m:
+        raise rules.ExtractionError('%s: case PML_VAR_ARRAY arm not found' % fname)
+    ob = m.end() - 1
+    cb = rules.match_close(body, ob, '{', '}')
+    line = first + body.count('\n', 0, ob)
+    stmts = parse_stmts(body[ob + 1:cb])
+    out, dropped = [], []
+    have_def = have_use = False
+
+    def is_throw_block(st):
+        if st[0] == 'block':
+            return len(st[1]) == 1 and is_throw_block(st[1][0])
+        return st[0] == 'simple' and st[1].startswith('ERROR_EXECUTION_THROW')
+
+    for st in stmts:
+        if st[0] == 'simple':
+            t = st[1]
+            if re.match(r'^int\s+index\s*=\s*dataToInt\s*\(\s*evaluateExpr\s*\(\s*expr\s*\)\s*\)\s*;$', t):
+                if have_def:
+                    raise rules.ExtractionError('%s: index defined twice' % fname)
+                have_def = True
+                continue
+            if re.search(r'\[\s*index\s*\]', t):
+                if not have_def:
+                    raise rules.ExtractionError('%s: index used before its definition' % fname)
+                have_use = True
+                out.append('  USE_INDEX(index, size);')
+                out.append('  return 0;')
+                break
+            if re.search(r'\bindex\b', t):
+                raise rules.ExtractionError('%s: statement on index outside the rules: %s' % (fname, t))
+            dropped.append({'what': 'statement not on the index', 'text': t})
+            continue
+        if st[0] == 'if':
+            cond, then, els = st[1], st[2], st[3]
+            if not re.search(r'\bindex\b', cond):
+                dropped.append({'what': 'guard that does not mention the index', 'text': ' '.join(cond.split())})
+                continue
+            if not have_def:
+                raise rules.ExtractionError('%s: guard on index before its definition' % fname)
+            if els is not None or not is_throw_block(then[0]):
+                raise rules.ExtractionError('%s: guard on index that is not of the form if (..) ERROR_EXECUTION_THROW(..)' % fname)
+            c = re.sub(SIZE_RX, 'size', cond)
+            chk = rules.strip_literals(c)
+            if not re.match(r'^[\s\w<>=!&|()+\-]*$', chk) or re.search(r'\b(?!index\b|size\b|\d+\b|INT_MAX\b|INT_MIN\b)[A-Za-z_]\w*', chk):
+                raise rules.ExtractionError('%s: guard condition outside the rules: %s' % (fname, ' '.join(cond.split())))
+            out.append('  if (%s) { verif_throw(); return 0; }' % ' '.join(c.split()))
+            continue
+        raise rules.ExtractionError('%s: statement shape outside the rules in the PML_VAR_ARRAY arm' % fname)
+    if not (have_def and have_use):
+        raise rules.ExtractionError('%s: PML_VAR_ARRAY arm without `int index = dataToInt(evaluateExpr(expr))` / a subscript [index]' % fname)
+    ctext = '/* %s:%d  %s, case PML_VAR_ARRAY, sliced to the guards on the index */\nstatic int idx_%s(int index, int size) {\n%s\n}\n' % (SRC, line, fname, fname, '\n'.join(out))
+    return ctext, line, dropped
+
+
+DATA_H = 'src/uscxml/messages/Data.h'
+SIG_SUB = r'\bData\s*&\s*operator\s*\[\s*\]\s*\(\s*const\s+size_t\s+index\s*\)\s*'
+
+
+def extract_data_subscript(repo):
+    """Data::operator[](const size_t index) - the element access behind every Promela array read and write.
+    The std::list<Data> is abstracted to its LENGTH (ghost verif_n) and an iterator to its POSITION:
+        array.size() -> verif_n      array.push_back(..) -> verif_n++      std::list<Data>::iterator it = array.begin() -> size_t it = 0
+        it++ stays                   return *it -> DEREF(it)  (asserts it < verif_n: not end(), and it == index)
+    The two loops get loop contracts (inserted by this script after the loop headers, which must have the shapes below,
+    else ExtractionError): they are checked for every list length and every index, without unwinding."""
+    path = os.path.join(repo, DATA_H)
+    first, last, sig, body = rules.find_function(path, SIG_SUB)
+    t = body
+    t, n1 = re.subn(r'\barray\s*\.\s*size\s*\(\s*\)', 'verif_n', t)
+    t, n2 = re.subn(r'\barray\s*\.\s*push_back\s*\((?:[^()]|\([^()]*\))*\)\s*;', 'verif_n++;', t)
+    t, n3 = re.subn(r'\bstd::list\s*<\s*Data\s*>\s*::\s*iterator\s+(\w+)\s*=\s*array\s*\.\s*begin\s*\(\s*\)\s*;', r'size_t \1 = 0;', t)
+    t, n4 = re.subn(r'\breturn\s*\*\s*(\w+)\s*;', r'DEREF(\1, index); return;', t)
+    if not (n3 == 1 and n4 == 1):
+        raise rules.ExtractionError('Data::operator[](size_t): iterator definition / return *iterator not found exactly once')
+    m = re.search(r'size_t (\w+) = 0;', t)
+    it = m.group(1)
+    # loop contracts
+    def while_contract(mm):
+        cond = mm.group(1)
+        if not re.match(r'^\s*verif_n\s*(<|<=)\s*index\s*$', cond):
+            raise rules.ExtractionError('Data::operator[](size_t): padding loop condition outside the rules: ' + cond)
+        return ('while (%s)\n  __CPROVER_assigns(verif_n)\n  __CPROVER_loop_invariant(verif_n >= __CPROVER_loop_entry(verif_n))\n'
+                '  __CPROVER_decreases(index + 1 - verif_n)\n' % cond)
+    t, nw = re.subn(r'\bwhile\s*\(([^()]*)\)', while_contract, t)
+
+    def for_contract(mm):
+        hdr = ' '.join(mm.group(1).split())
+        m2 = re.match(r'^size_t (\w+) = 0; \1 < index; (?:\1\+\+|\+\+\1), (?:%s\+\+|\+\+%s)$' % (it, it), hdr) or \
+            re.match(r'^size_t (\w+) = 0; \1 < index; (?:%s\+\+|\+\+%s), (?:\1\+\+|\+\+\1)$' % (it, it), hdr)
+        if not m2:
+            raise rules.ExtractionError('Data::operator[](size_t): advance loop header outside the rules: ' + hdr)
+        v = m2.group(1)
+        return ('for (%s)\n  __CPROVER_assigns(%s, %s)\n  __CPROVER_loop_invariant(%s <= index && %s == %s)\n  __CPROVER_decreases(index - %s)\n'
+                % (hdr, v, it, v, it, v, v))
+    t, nf = re.subn(r'\bfor\s*\(([^()]*)\)', for_contract, t)
+    chk = rules.strip_literals(re.sub(r'/\*.*?\*/', '', t))
+    for rx in (r'\barray\b', r'\bstd\b', r'\bData\b', r'->', r'::', r'\*\s*\w+\s*;'):
+        if re.search(rx, chk):
+            raise rules.ExtractionError('Data::operator[](size_t) not fully rewritten, residue /%s/' % rx)
+    ctext = ('/* %s:%d-%d  Data::operator[](const size_t index); std::list abstracted to its length, iterator to its position */\n'
+             'static void data_subscript(const size_t index)\n{%s}\n' % (DATA_H, first, last, t))
+    return ctext, (first, last), {'loops_with_contract': nw + nf, 'push_back': n2}
+
+
 def extract(repo):
     path = os.path.join(repo, SRC)
     first, last, sig, body = rules.find_function(path, SIG)
@@ -340,6 +461,13 @@ def extract(repo):
             if l not in enum:
                 enum.append(l)
     d2b, d2b_lines = extract_dataToBool(repo)
+    res['data_subscript'], res['data_subscript_lines'], res['data_subscript_info'] = extract_data_subscript(repo)
+    res['index_guards'] = []
+    idx_code = ''
+    for sig, fname in ((SIG_GET, 'getVariable'), (SIG_SET, 'setVariable')):
+        ctext, line, dropped = extract_index_guard(repo, sig, fname)
+        idx_code += ctext
+        res['index_guards'].append({'function': fname, 'line': line, 'dropped': dropped})
     res['dataToBool_lines'] = d2b_lines
     res['c'] = ('/* GENERATED on every run by engines/extract/pml_extract.py from %s */\n'
                 '#include <stdbool.h>\n#include <stddef.h>\n#include <limits.h>\n'
@@ -353,7 +481,17 @@ def extract(repo):
                 'static void verif_lit(int kind) { __CPROVER_assert(kind == PML_CONST, "O_arity: a literal value is read from an operand node that is not a literal (PML_CONST)"); }\n'
                 'static void verif_opnd(int k, int nops);\n'
                 'static void verif_opnd(int k, int nops) { __CPROVER_assert(k <= nops, "O_arity: the arm takes an operand the parser did not supply (std::list iterator walks off the operand list)"); }\n'
-                % (SRC, ', '.join('%s = %d' % (e, 300 + i) for i, e in enumerate(enum)))) + d2b + '\n' + '\n'.join(code)
+                'int verif_used;\n'
+                '#define USE_INDEX(i, n) (verif_used = 1, __CPROVER_assert((i) >= 0 && (i) < (n), "O_index: an array element is accessed only with an index inside the declared array (0 <= index < size)"))\n'
+                'size_t verif_n; /* ghost: length of the std::list<Data> behind Data::array */\n'
+                'int verif_deref;\n'
+                '#define DEREF(it, idx) (verif_deref = 1, __CPROVER_assert((it) < verif_n, "O_elem: the iterator that is dereferenced points at an element of the list (not at end())"), __CPROVER_assert((it) == (idx), "O_elem: the element returned is element number index"))\n'
+                '/* contract: derived precondition - both callers pass a checked, non-negative int */\n'
+                'static void data_subscript(const size_t index)\n'
+                '  __CPROVER_requires(index <= 2147483647)\n'
+                '  __CPROVER_assigns(verif_n, verif_deref)\n'
+                '  __CPROVER_ensures(verif_n > index && verif_n >= __CPROVER_old(verif_n))\n;\n'
+                % (SRC, ', '.join('%s = %d' % (e, 300 + i) for i, e in enumerate(enum)))) + d2b + '\n' + idx_code + '\n' + res['data_subscript'] + '\n' + '\n'.join(code)
     return res
 
 
